@@ -11,7 +11,7 @@ VARIABLES c, k, ipT, binT
 ConfigsA ==
   { x \in [N : { n \in 4..MaxN : n % 2 = 0 }, R : 1..MaxR, span : 1..(2 * MaxR - 1), ge : BOOLEAN,
            maxDelta : 0..(MaxR - 1), mash : 1..(MaxN \div 2), tofMash : {0} \cup { m \in 1..MaxTofMash : m % 2 = 1 },
-           maxT : {5}, minTang : {0}, maxTang : {0}, minSeg : {0}, maxSeg : 0..(MaxR - 1), trunc : 0..1] :
+           maxT : {5}, minTang : {0}, maxTang : {0}, minSeg : {0}, maxSeg : 0..(MaxR - 1), trunc : 0..2] :
       /\ (x.ge => x.span = 1)
       /\ x.mash \in {1, 2, 3}
       /\ x.maxSeg = FullMaxSeg(x) }
@@ -21,11 +21,12 @@ ConfigsB ==
            maxT : {3}, minTang : {0}, maxTang : {0}, minSeg : {0}, maxSeg : 0..(MaxRB - 1), trunc : {0}] :
       /\ x.maxSeg = FullMaxSeg(x) }
 Configs == ConfigsA \cup ConfigsB
-\* tangential range: full (trunc = 0) or reduced asymmetric (trunc = 1, as num_tangential_poss even gives)
+\* tangential range: full (trunc = 0), reduced (trunc = 1, as an even num_tangential_poss gives) or one-sided
+\* (trunc = 2, as set_min/max_tangential_pos_num on an existing object can give)
 Norm(x) == [N |-> x.N, R |-> x.R, span |-> x.span, ge |-> x.ge, maxDelta |-> x.maxDelta, mash |-> x.mash,
             tofMash |-> x.tofMash, maxT |-> x.maxT,
-            minTang |-> IF x.trunc = 0 THEN -(x.N \div 2) + 1 ELSE -((x.N \div 2) \div 2),
-            maxTang |-> IF x.trunc = 0 THEN (x.N \div 2) - 1 ELSE ((x.N \div 2) \div 2) - 1,
+            minTang |-> IF x.trunc \in {0, 2} THEN -(x.N \div 2) + 1 ELSE -((x.N \div 2) \div 2),
+            maxTang |-> IF x.trunc = 0 THEN (x.N \div 2) - 1 ELSE IF x.trunc = 1 THEN ((x.N \div 2) \div 2) - 1 ELSE 0,
             minSeg |-> -x.maxSeg, maxSeg |-> x.maxSeg]
 
 \* the escape clauses of the round-trip theorem are not vacuous: witnesses (evaluated once)
